@@ -9,7 +9,7 @@ from .c02 import assignments, assignments_k, WIDE, VERYWIDE, verywide_assignment
 CFGS = {'C': 'Clone', 'CC': 'Copy, Clone', 'CC2': 'Clone, Copy'}
 
 
-def build(shape, assign, cfg, ctx='alone', bound=None, honour=False):
+def build(shape, assign, cfg, ctx='alone', bound=None, honour=False, pe=False):
     copy = cfg != 'C'
     has_method = any('m' in a for a in assign)
     tys, fattrs = [], []
@@ -23,12 +23,17 @@ def build(shape, assign, cfg, ctx='alone', bound=None, honour=False):
             if ch == 'm':
                 own = 'Clone(method(clone_m))' if salt % 2 else 'Clone(method = "clone_m")'
             t.append('K')
-            a.append(place(own, 'Debug(ignore)', ctx))
+            lines = place(own, 'Debug(ignore)', ctx)
+            if pe:      # an educed PartialEq that calls every two values equal: Clone may not consult it
+                lines = lines + ['#[educe(PartialEq(ignore))]'] if salt % 2 else ['#[educe(PartialEq = false)]'] + lines
+            a.append(lines)
         tys.append(t)
         fattrs.append(a)
     traits = CFGS[cfg]
     if bound:
         traits = traits.replace('Clone', 'Clone(%s)' % bound)
+    if pe:
+        traits = ('PartialEq, ' + traits) if len(assign[0]) % 2 else (traits + ', PartialEq')
     if ctx != 'alone':
         traits = ('Debug, ' + traits) if ctx.endswith('before') else (traits + ', Debug')
     src = S.render_type(shape, ['#[educe(%s)]' % traits], tys, fattrs, derives='Educe')
@@ -74,7 +79,7 @@ def build(shape, assign, cfg, ctx='alone', bound=None, honour=False):
         src += '    r.ck(!probe!(Ty: Copy), 21, &|| "the type is Copy although Copy is not educed".to_string());\n'
     src += '}\n'
     depth = sum(1 for a in assign for ch in a if ch != 'o') + (cfg != 'C') + (ctx != 'alone')
-    key = 'C07|%s|%s|%s%s%s' % (cfg, shape.code(), ','.join(assign), '' if ctx == 'alone' else '|' + ctx, '|' + bound if bound else '')
+    key = 'C07|%s|%s|%s%s%s%s' % (cfg, shape.code(), ','.join(assign), '' if ctx == 'alone' else '|' + ctx, '|' + bound if bound else '', '|+PartialEq' if pe else '')
     return Case(key, src, {'cfg': cfg, 'shape': shape.code(), 'assign': list(assign), 'ctx': ctx, 'values': len(vals)},
                 expect='accept', run=True, depth=depth)
 
@@ -94,6 +99,13 @@ def generate(tier):
             alph = 'o' if (sh.kind == 'struct' and cfg != 'C') else 'om'
             for assign in assignments(sh, alph):
                 cases.append(build(sh, assign, cfg))
+    # the same type also educes a PartialEq that ignores every field (all values compare equal): cloning is not comparison
+    for sh in S.struct_shapes(2) + S.enum_shapes(2, 2):
+        for cfg in ('C', 'CC'):
+            alph = 'o' if (sh.kind == 'struct' and cfg != 'C') else 'om'
+            for assign in assignments(sh, alph):
+                if sh.positions():
+                    cases.append(build(sh, assign, cfg, pe=True))
     for sh in WIDE:
         for cfg in CFGS:
             alph = 'o' if (sh.kind == 'struct' and cfg != 'C') else 'om'
